@@ -4,6 +4,7 @@ mod absval;
 mod gen;
 mod jtree;
 mod ops_json;
+mod ops_time;
 mod ops_zinc;
 mod util;
 
@@ -14,12 +15,13 @@ fn arg(args: &[String], name: &str) -> Option<String> {
     args.iter().position(|a| a == name).and_then(|i| args.get(i + 1).cloned())
 }
 
-fn dispatch(vec: &J) -> Result<J, String> {
+fn dispatch(vec: &J, out: &mut Out) -> Result<(), String> {
     let op = vec["op"].as_str().unwrap_or("");
     let dom = op.split('.').next().unwrap_or("");
     match dom {
-        "zinc" => ops_zinc::run(vec),
-        "hayson" => ops_json::run(vec),
+        "zinc" => ops_zinc::run(vec).map(|e| out.emit(e)),
+        "hayson" => ops_json::run(vec).map(|e| out.emit(e)),
+        "time" => ops_time::run(vec, out),
         _ => Err(format!("unknown op {op}")),
     }
 }
@@ -37,8 +39,8 @@ fn main() {
         "run" => {
             let vectors = read_lines(&arg(&args, "--in").expect("--in"));
             for v in &vectors {
-                match dispatch(v) {
-                    Ok(ev) => out.emit(ev),
+                match dispatch(v, &mut out) {
+                    Ok(()) => {}
                     Err(e) => {
                         eprintln!("TOOL-ERROR: {e} on vector {v}");
                         std::process::exit(2);
@@ -59,6 +61,11 @@ fn main() {
                         let vj = absval::alpha(&v);
                         out.emit(ops_zinc::zinc_rt(&v, &vj));
                     }
+                }
+                "time" => {
+                    let per_zone: usize = arg(&args, "--per-zone").and_then(|s| s.parse().ok()).unwrap_or(8);
+                    ops_time::rec(&mut out, seed, per_zone);
+                    eprintln!("{}", ops_time::zone_census());
                 }
                 "hayson" => {
                     for _ in 0..n {
